@@ -281,8 +281,14 @@ func cmdCheck(args []string) int {
 	if len(slowest) > 5 {
 		slowest = slowest[:5]
 	}
+	otherProp := 0
 	for _, k := range order {
 		ks := keys[k]
+		// a clause tagged for other properties only is reported by those properties' checks
+		if (ks.Kind == "ensures" || ks.Kind == "assert-at" || ks.Kind == "lemma" || strings.HasPrefix(ks.Kind, "requires@call")) && len(ks.Tags) > 0 && !hasTag(ks.Tags, *prop) {
+			otherProp += ks.Instances
+			continue
+		}
 		if len(ks.Failed) == 0 {
 			nObl += ks.Instances
 			nDis += ks.Instances
@@ -363,7 +369,7 @@ func cmdCheck(args []string) int {
 	wall := time.Since(t0)
 	writeEvidence(*verif, *prop, *tier, seed, w, rr, keys, wall, violations, pc, map[string]interface{}{
 		"obligations": nObl, "discharged": nDis, "by_backend": byBackend, "solver_time_s": float64(solverMs) / 1000, "slowest": slowest,
-		"known_findings": knownList, "load_s": loadSecs, "order": order,
+		"known_findings": knownList, "load_s": loadSecs, "order": order, "obligations_of_other_properties_in_cone": otherProp,
 	})
 	if !*quiet {
 		fmt.Printf("property %s (%s): %d functions/lemmas in cone, %d obligation instances, %d discharged, %d known findings, %d violations, %.1fs (load %.1fs)\n",
